@@ -41,6 +41,7 @@ type (
 		client          RedisClient
 		disp            *cmdDispatcher
 		cmdQueue        *[]*cmdContext
+		cmdQueueAborted bool
 		watches         map[watchKey]uint64
 		blocked         int32
 		unblockPending  int32
